@@ -56,6 +56,103 @@ def chunk_items(run, tier, lengths):
     return [(n, blob[:n]) for n in lengths]
 
 
+# (a') short reads: the REAL reader on a FIFO that a writer feeds piecewise (an appender between two reads)
+def fifo_write_lists(run, tier):
+    rng = run.rng
+    fixed = [[100, 100], [100, 32], [100, 31], [100, 33, 5], [4096, 100], [4095, 1, 4096], [4096, 4096, 4096], [1] * 10, [32] * 5,
+             [5], [4096], [4095], [31, 1, 32, 4096, 4096, 4096, 4096, 7], [100, 4096, 4096, 4096, 4096, 4096, 4096]]
+    n = 25 if tier == 'quick' else 300
+    for _ in range(n):
+        fixed.append([rng.choice([1, 2, 31, 32, 33, 64, 100, 1000, 4095, 4096]) for _ in range(rng.randint(1, 9))])
+    return fixed
+
+
+def run_fifo_cases(run, binary, jbin, tmp, write_lists):
+    """Each write (<= 4096 bytes, atomic on a pipe) is made only after the previous one was consumed
+    (FIONREAD == 0), so every read(2) of the real code returns min(buffer size, what is left of the
+    current write): a deterministic short-read schedule.  The schedule handed to the model is derived
+    from the writes and the progress the implementation made; the model must then produce the same chunks."""
+    import subprocess, fcntl, termios, struct, time, errno
+    pending = []
+    for i, writes in enumerate(write_lists):
+        fifo = os.path.join(tmp, 'fifo_%d' % i)
+        os.mkfifo(fifo)
+        data = run.rng.randbytes(sum(writes))
+        p = subprocess.Popen([binary, '--verif-harness', 'chunks'], stdin=subprocess.PIPE, stdout=subprocess.PIPE,
+                             stderr=subprocess.DEVNULL, text=True)
+        conclusive, line = True, ''
+        try:
+            p.stdin.write('G %s\n' % cl.hexs(fifo)); p.stdin.flush()
+            fd, t0 = None, time.time()
+            while fd is None and time.time() - t0 < 20:
+                try:
+                    fd = os.open(fifo, os.O_WRONLY | os.O_NONBLOCK)
+                except OSError as e:
+                    if e.errno != errno.ENXIO:
+                        raise
+                    time.sleep(0.002)
+            if fd is None:
+                conclusive = False
+            else:
+                fcntl.fcntl(fd, fcntl.F_SETFL, fcntl.fcntl(fd, fcntl.F_GETFL) & ~os.O_NONBLOCK)
+                off = 0
+                for w in writes:
+                    os.write(fd, data[off:off + w]); off += w
+                    t0 = time.time()
+                    while struct.unpack('i', fcntl.ioctl(fd, termios.FIONREAD, b'\0\0\0\0'))[0] != 0:
+                        if time.time() - t0 > 20:
+                            conclusive = False
+                            break
+                        time.sleep(0.0005)
+                    if not conclusive:
+                        break
+                os.close(fd)
+                if conclusive:
+                    line = p.stdout.readline().strip()
+        finally:
+            try:
+                p.stdin.close()
+            except OSError:
+                pass
+            if not conclusive:
+                p.kill()
+            p.wait()
+            os.unlink(fifo)
+        if not conclusive or not line:
+            run.count('fifo:inconclusive')
+            continue
+        # schedule: before each read, what was left of the current write
+        cs = cl.parse_chunks(line) or []
+        sched, idx, avail, consistent = [], 0, writes[0], True
+        for n, _, _ in cs:
+            if n == 0:
+                continue
+            if idx >= len(writes) or n > avail:
+                consistent = False
+                break
+            sched.append(avail)
+            avail -= n
+            if avail == 0:
+                idx += 1
+                avail = writes[idx] if idx < len(writes) else 0
+        reg = os.path.join(tmp, 'fifo_data_%d' % i)
+        with open(reg, 'wb') as f:
+            f.write(data)
+        pending.append((writes, data, line, sched, consistent, reg))
+    model = cl.run_judge_parallel(jbin, ['G %s %s' % (cl.hexs(reg), ','.join(map(str, sched)) or '-') for _, _, _, sched, _, reg in pending])
+    for (writes, data, il, sched, consistent, reg), ml in zip(pending, model):
+        run.count('fifo:short-read-schedules')
+        run.case(('fifo', tuple(writes)), True, sample={'driver': 'unit-chunks-fifo', 'writes': writes, 'impl': il[:200], 'model': ml[:200]})
+        run.traces_validated += 1
+        bad = cl.chunks_oracle(data, il)
+        rep = {'driver': 'unit-chunks-fifo', 'writes': writes, 'schedule': sched, 'impl': il[:2000], 'model': ml[:2000]}
+        if bad:
+            run.fail('C11 chunk reader with short reads (writes %r): %s' % (writes, bad), rep)
+        elif not consistent or il != ml:
+            run.broke('correspondence', 'unit-chunks-fifo', json.dumps(rep)[:1500])
+        os.unlink(reg)
+
+
 # ------------------------------------------------------------------------------------------------
 # (b) scripted relay
 def gen_relay_cases(run, tier, extended=False):
@@ -141,16 +238,17 @@ def corpus_cases():
 
 # ------------------------------------------------------------------------------------------------
 # (c) end to end with the real CLI
-def e2e_cases(run, binary, tmp, tier):
+def e2e_cases(run, binary, tmp, tier, placements=None, tag=''):
     rng = run.rng
     lens = [0, 1, 31, 32, 33, 4095, 4096, 4097, 8192, 12287, 12288, 12289, 28672, 28673, 65537, 1048576 + 3]
     big = [4190208, 4194304 + 1, 5 * 1024 * 1024 + 7] if tier == 'quick' else [4190208, 4190209, 4194304, 4194304 + 1, 8384512, 8384513, 9 * 1024 * 1024 + 11]
-    placements = [('LL', lens + big[:1]), ('RR', lens[:10] + big)]
-    if tier == 'thorough':
-        placements += [('LR', lens + big[:2]), ('RL', lens + big[:2])]
+    if placements is None:
+        placements = [('LL', lens + big[:1]), ('RR', lens[:10] + big)]
+        if tier == 'thorough':
+            placements += [('LR', lens + big[:2]), ('RL', lens + big[:2])]
     fake = e2e.fake_ssh_dir(tmp)
     for pi, (placement, ls) in enumerate(placements):
-        base = os.path.join(tmp, 'e2e_%s' % placement)
+        base = os.path.join(tmp, 'e2e_%s%s' % (tag, placement))
         os.makedirs(base)
         src_tree, dest_tree = {'': {'k': 'dir'}}, {'': {'k': 'dir'}}
         t0 = 1_500_000_000_000_000_000
@@ -234,6 +332,7 @@ def check(run):
                 run_chunk_cases(run, binary, jbin, tmp, chunk_items(run, tier, ls), 'all-0..70000')
             big = sorted(run.rng.randrange(70001, 9 * 1024 * 1024 + 1) for _ in range(24)) + [9 * 1024 * 1024]
             run_chunk_cases(run, binary, jbin, tmp, chunk_items(run, tier, big), 'random-to-9MiB')
+        run_fifo_cases(run, binary, jbin, tmp, fifo_write_lists(run, tier))
         # (b)
         run_relay_cases(run, binary, jbin, tmp, gen_relay_cases(run, tier))
         # (c)
@@ -247,6 +346,9 @@ def check(run):
             if not sub.prop_failures:
                 ls = sorted(set(sub.rng.randrange(0, 200000) for _ in range(400)))
                 run_chunk_cases(sub, binary, jbin, tmp, chunk_items(sub, 'quick', ls), 'search')
+            if not sub.prop_failures:
+                # a file long enough to contain the largest chunks, through the real encrypted link (frame buffers)
+                e2e_cases(sub, binary, tmp, 'quick', placements=[('RR', [20 * 1024 * 1024 + 1, 4096])], tag='search_')
             return sub.prop_failures[0] if sub.prop_failures else None
         return run.finish(search=search)
     finally:
